@@ -3,7 +3,7 @@
    the code before the repair is kept as [..._before_fix_refuted] witnesses.  The model is tied to
    trajectories/store.py by running [run_case] inside Coq against real NetCDF stores (harness/c03.py). *)
 From Coq Require Import ZArith List String Bool Arith.
-From AV Require Import model.C03_Model proofs.C03_Proofs proofs.C03_Store proofs.C03_Files.
+From AV Require Import model.C03_Model proofs.C03_Proofs proofs.C03_Store proofs.C03_Files proofs.C03_Facts.
 Import ListNotations.
 
 (* One field, every one of the six dimension shapes and every scalar kind: whatever fits the field
@@ -25,6 +25,52 @@ Theorem C03_species_exact :
   forall sp, lookup sp (restrict L mp) = lookup sp mp.
 Proof. exact @species_exact. Qed.
 Print Assumptions C03_species_exact.
+
+(* None lost on ANY write path (add, save of an in-memory store, create_associated): all three write through
+   the same guarded writer; it accepts a species-indexed value only if every species of it has a place in the
+   file's species dimension and refuses (ValueError) otherwise — and what it accepts reads back with exactly
+   its species (C03_species_exact). *)
+Theorem C03_accepted_species_are_in_dimension :
+  forall L m v ps, field_patches true L m v = inl ps ->
+  match v with
+  | FSp mp => unknown_species L mp = false
+  | FSpArr mp => unknown_species L mp = false
+  | FSpTm mp => unknown_species L mp = false
+  | _ => True
+  end.
+Proof. exact accepted_species_are_in_dimension. Qed.
+Print Assumptions C03_accepted_species_are_in_dimension.
+
+Theorem C03_species_outside_dimension_refused :
+  forall L m v,
+  match v with
+  | FSp mp => fm_shape m = ShTS /\ unknown_species L mp = true
+  | FSpArr mp => fm_shape m = ShTSP /\ unknown_species L mp = true
+  | FSpTm mp => fm_shape m = ShTSM /\ unknown_species L mp = true
+  | _ => False
+  end -> field_patches true L m v = inr EValue.
+Proof. exact species_outside_dimension_refused. Qed.
+Print Assumptions C03_species_outside_dimension_refused.
+
+Theorem C03_every_write_path_is_the_guarded_writer :
+  forall fixed sc order r1 i t ts st,
+  add_all_c fixed sc order i (t :: ts) st =
+    match write_traj_c fixed sc order i t st with
+    | inr e => (st, Some (i, e))
+    | inl st' => add_all_c fixed sc order (S i) ts st'
+    end
+  /\ map_all_c fixed sc r1 order i (t :: ts) st =
+    match load_traj_c fixed sc r1 i st with
+    | inr e => (st, Some (i, e))
+    | inl _ => match write_traj_c fixed sc order i t st with
+               | inr e => (st, Some (i, e))
+               | inl st' => map_all_c fixed sc r1 order (S i) ts st'
+               end
+    end
+  /\ forall fsp p m v c, write_field fixed fsp p m v c =
+       match field_patches fixed fsp m v with inl ps => inl (apply_patches p ps c) | inr e => inr e end.
+Proof. exact every_write_path_is_the_guarded_writer. Qed.
+Print Assumptions C03_every_write_path_is_the_guarded_writer.
 
 (* Unset optional fields come back unset, for every shape; for per-trajectory scalars of every
    numeric kind (strings: see C03_unset_optional_string_reads_empty_refuted). *)
